@@ -112,3 +112,265 @@ example :
     specLoop ⟨.assign, some 1, some 2, .nil⟩ [(0, 10)] [[(1, -1)]] = none := by decide
 
 end GoCo.RL
+
+namespace GoCo.RL
+
+/-! ### the `:=` form of the consumer lowering, for bodies that do not redeclare the loop variable at their top
+    level: splicing the body into the block that declares the variable is invisible -/
+
+def names (f : Frame) : List Name := f.map (·.1)
+
+/-- `SimN K n a b`: the environments agree except that, n frames down, the frames `g :: f1` of `a` are the one
+    frame `g ++ f1` of `b`; K are the names declared by f1 -/
+def SimN (K : List Name) : Nat → Frames → Frames → Prop
+  | 0, a, b => ∃ g f1 fs, a = g :: f1 :: fs ∧ b = (g ++ f1) :: fs ∧ names f1 = K
+  | n + 1, a, b => ∃ h a' b', a = h :: a' ∧ b = h :: b' ∧ SimN K n a' b'
+
+def RelO {α : Type} (R : α → α → Prop) : Option α → Option α → Prop
+  | none, none => True
+  | some a, some b => R a b
+  | _, _ => False
+
+theorem lookupF_append (x : Name) : ∀ (g f1 : Frame),
+    lookupF x (g ++ f1) = match lookupF x g with | some v => some v | none => lookupF x f1
+  | [], f1 => rfl
+  | (y, w) :: r, f1 => by
+      simp only [List.cons_append, lookupF]
+      split
+      · rfl
+      · exact lookupF_append x r f1
+
+theorem lookupF_none_of_not_mem (x : Name) : ∀ (f : Frame), ¬ x ∈ names f → lookupF x f = none
+  | [], _ => rfl
+  | (y, w) :: r, h => by
+      simp only [names, List.map_cons, List.mem_cons, not_or] at h
+      simp only [lookupF]
+      rw [if_neg (fun e => h.1 e.symm)]
+      exact lookupF_none_of_not_mem x r h.2
+
+theorem lookup_sim (K : List Name) (x : Name) : ∀ (n : Nat) (a b : Frames), SimN K n a b → lookup x a = lookup x b
+  | 0, _, _, ⟨g, f1, fs, rfl, rfl, _⟩ => by
+      simp only [lookup, lookupF_append]
+      cases lookupF x g <;> rfl
+  | n + 1, _, _, ⟨h, a', b', rfl, rfl, hs⟩ => by
+      simp only [lookup, lookup_sim K x n a' b' hs]
+
+theorem eval_sim (K : List Name) (n : Nat) (a b : Frames) (h : SimN K n a b) : ∀ e : Expr, eval e a = eval e b
+  | .lit _ => rfl
+  | .var x => lookup_sim K x n a b h
+  | .add e1 e2 => by simp only [eval, eval_sim K n a b h e1, eval_sim K n a b h e2]
+
+theorem updF_append (x : Name) (v : Int) : ∀ (g f1 : Frame),
+    updF x v (g ++ f1) = match updF x v g with
+      | some g' => some (g' ++ f1)
+      | none => (updF x v f1).map (g ++ ·)
+  | [], f1 => by simp [updF]
+  | (y, w) :: r, f1 => by
+      simp only [List.cons_append, updF]
+      split
+      · rfl
+      · rw [updF_append x v r f1]
+        cases updF x v r with
+        | some r' => rfl
+        | none => cases updF x v f1 <;> rfl
+
+theorem names_updF (x : Name) (v : Int) : ∀ (f f' : Frame), updF x v f = some f' → names f' = names f
+  | [], _, h => by cases h
+  | (y, w) :: r, f', h => by
+      simp only [updF] at h
+      split at h
+      · cases h; rfl
+      · cases hr : updF x v r with
+        | none => rw [hr] at h; cases h
+        | some r' =>
+          rw [hr] at h; cases h
+          simp only [names, List.map_cons, List.cons.injEq, true_and]
+          exact names_updF x v r r' hr
+
+theorem assign_sim (K : List Name) (x : Name) (v : Int) :
+    ∀ (n : Nat) (a b : Frames), SimN K n a b → RelO (SimN K n) (assign x v a) (assign x v b)
+  | 0, _, _, ⟨g, f1, fs, rfl, rfl, hk⟩ => by
+      simp only [assign, updF_append]
+      cases hg : updF x v g with
+      | some g' => exact ⟨g', f1, fs, rfl, rfl, hk⟩
+      | none =>
+        cases hf : updF x v f1 with
+        | some f1' => exact ⟨g, f1', fs, rfl, rfl, (names_updF x v f1 f1' hf).trans hk⟩
+        | none =>
+          simp only [Option.map_none]
+          cases assign x v fs with
+          | none => trivial
+          | some fs' => exact ⟨g, f1, fs', rfl, rfl, hk⟩
+  | n + 1, _, _, ⟨h, a', b', rfl, rfl, hs⟩ => by
+      simp only [assign]
+      cases updF x v h with
+      | some h' => exact ⟨h', a', b', rfl, rfl, hs⟩
+      | none =>
+        have ih := assign_sim K x v n a' b' hs
+        cases ha : assign x v a' with
+        | none =>
+          rw [ha] at ih
+          cases hb : assign x v b' with
+          | none => trivial
+          | some _ => rw [hb] at ih; exact ih.elim
+        | some a'' =>
+          rw [ha] at ih
+          cases hb : assign x v b' with
+          | none => rw [hb] at ih; exact ih.elim
+          | some b'' => rw [hb] at ih; exact ⟨h, a'', b'', rfl, rfl, ih⟩
+
+theorem define_sim (K : List Name) (x : Name) (v : Int) :
+    ∀ (n : Nat) (a b : Frames), SimN K n a b → (n = 0 → ¬ x ∈ K) → RelO (SimN K n) (define x v a) (define x v b)
+  | 0, _, _, ⟨g, f1, fs, rfl, rfl, hk⟩, hx => by
+      have hf1 : lookupF x f1 = none := lookupF_none_of_not_mem x f1 (by rw [hk]; exact hx rfl)
+      simp only [define, lookupF_append, hf1]
+      cases hg : lookupF x g with
+      | some w => trivial
+      | none => exact ⟨(x, v) :: g, f1, fs, rfl, rfl, hk⟩
+  | n + 1, _, _, ⟨h, a', b', rfl, rfl, hs⟩, _ => by
+      simp only [define]
+      split
+      · trivial
+      · exact ⟨(x, v) :: h, a', b', rfl, rfl, hs⟩
+
+def noTopDefS (K : List Name) : BStmt → Bool
+  | .set .define x _ => !K.contains x
+  | _ => true
+
+def noTopDefL (K : List Name) : BStmts → Bool
+  | .nil => true
+  | .cons s r => noTopDefS K s && noTopDefL K r
+
+def RelE (K : List Name) (n : Nat) : Option (Frames × Ctl) → Option (Frames × Ctl) → Prop :=
+  RelO (fun x y => SimN K n x.1 y.1 ∧ x.2 = y.2)
+
+theorem relE_of_relO {K : List Name} {n : Nat} {x y : Option Frames} (c : Ctl) (h : RelO (SimN K n) x y) :
+    RelE K n (x.bind fun f => some (f, c)) (y.bind fun f => some (f, c)) := by
+  cases x <;> cases y <;> first | trivial | exact h.elim | exact ⟨h, rfl⟩
+
+/-- push a block, run, pop: the difference stays n frames down -/
+theorem block_sim {K : List Name} {n : Nat} {a b : Frames} (ss : BStmts)
+    (ih : RelE K (n + 1) (execL ss ([] :: a)) (execL ss ([] :: b))) :
+    RelE K n (execS (.block ss) a) (execS (.block ss) b) := by
+  simp only [execS, Option.bind_eq_bind, Option.pure_def]
+  cases ha : execL ss ([] :: a) with
+  | none =>
+    rw [ha] at ih
+    cases hb : execL ss ([] :: b) with
+    | none => trivial
+    | some _ => rw [hb] at ih; exact ih.elim
+  | some ra =>
+    rw [ha] at ih
+    cases hb : execL ss ([] :: b) with
+    | none => rw [hb] at ih; exact ih.elim
+    | some rb =>
+      rw [hb] at ih
+      obtain ⟨⟨h, a', b', e1, e2, hs⟩, hc⟩ := ih
+      obtain ⟨ra1, ra2⟩ := ra
+      obtain ⟨rb1, rb2⟩ := rb
+      simp only at e1 e2 hc
+      subst e1 e2 hc
+      exact ⟨hs, rfl⟩
+
+mutual
+  theorem execS_sim (K : List Name) :
+      ∀ (s : BStmt) (n : Nat) (a b : Frames), SimN K n a b → (n = 0 → noTopDefS K s = true) →
+        RelE K n (execS s a) (execS s b)
+    | .set tok x e, n, a, b, h, hd => by
+        simp only [execS, eval_sim K n a b h e, Option.bind_eq_bind, Option.pure_def]
+        cases eval e b with
+        | none => trivial
+        | some v =>
+          simp only [Option.bind_some]
+          cases tok with
+          | assign => exact relE_of_relO .next (assign_sim K x v n a b h)
+          | define =>
+            refine relE_of_relO .next (define_sim K x v n a b h (fun hn => ?_))
+            have := hd hn
+            simpa [noTopDefS] using this
+    | .block ss, n, a, b, h, _ =>
+        block_sim ss (execL_sim K ss (n + 1) ([] :: a) ([] :: b) ⟨[], a, b, rfl, rfl, h⟩ (fun hn => nomatch hn))
+    | .ifpos e thn, n, a, b, h, _ => by
+        have hb := block_sim thn (execL_sim K thn (n + 1) ([] :: a) ([] :: b) ⟨[], a, b, rfl, rfl, h⟩ (fun hn => nomatch hn))
+        simp only [execS, Option.bind_eq_bind, Option.pure_def] at hb ⊢
+        rw [eval_sim K n a b h e]
+        cases eval e b with
+        | none => trivial
+        | some v =>
+          simp only [Option.bind_some]
+          split
+          · exact hb
+          · exact ⟨h, rfl⟩
+    | .brk, n, a, b, h, _ => ⟨h, rfl⟩
+    | .cont, n, a, b, h, _ => ⟨h, rfl⟩
+  theorem execL_sim (K : List Name) :
+      ∀ (ss : BStmts) (n : Nat) (a b : Frames), SimN K n a b → (n = 0 → noTopDefL K ss = true) →
+        RelE K n (execL ss a) (execL ss b)
+    | .nil, n, a, b, h, _ => ⟨h, rfl⟩
+    | .cons s r, n, a, b, h, hd => by
+        have h1 := execS_sim K s n a b h (fun hn => by
+          have := hd hn; simp only [noTopDefL, Bool.and_eq_true] at this; exact this.1)
+        simp only [execL, Option.bind_eq_bind, Option.pure_def]
+        cases ha : execS s a with
+        | none =>
+          rw [ha] at h1
+          cases hb : execS s b with
+          | none => trivial
+          | some _ => rw [hb] at h1; exact h1.elim
+        | some ra =>
+          rw [ha] at h1
+          cases hb : execS s b with
+          | none => rw [hb] at h1; exact h1.elim
+          | some rb =>
+            rw [hb] at h1
+            obtain ⟨ra1, ra2⟩ := ra
+            obtain ⟨rb1, rb2⟩ := rb
+            obtain ⟨hs, hc⟩ := h1
+            simp only at hs hc
+            subst hc
+            simp only [Option.bind_some]
+            cases ra2 with
+            | next =>
+              exact execL_sim K r n ra1 rb1 hs (fun hn => by
+                have := hd hn; simp only [noTopDefL, Bool.and_eq_true] at this; exact this.2)
+            | brk => exact ⟨hs, rfl⟩
+            | cont => exact ⟨hs, rfl⟩
+end
+
+/-- **rewriteForRange, `:=` form**: for every body that does not redeclare the loop variable at its top level -/
+theorem lowIter_consumer_define (k : Name) (body : BStmts) (hb : noTopDefL [k] body = true) (kv : Int × Int)
+    (fs : Frames) :
+    lowIter (lowerConsumer ⟨.define, some k, none, body⟩) kv fs = specIter ⟨.define, some k, none, body⟩ kv fs := by
+  have hsim := execL_sim [k] body 0 ([] :: [(k, kv.1)] :: fs) ([(k, kv.1)] :: fs)
+    ⟨[], [(k, kv.1)], fs, rfl, rfl, rfl⟩ (fun _ => hb)
+  simp only [lowIter, lowerConsumer, specIter, execSets, setOpt, setVar, execS, define_nil_cons,
+    Option.isNone_none, Option.isNone_some, Bool.and_true, if_false, Bool.false_eq_true,
+    Option.pure_def, Option.bind_eq_bind, Option.bind_some, pop, if_true]
+  cases ha : execL body ([] :: [(k, kv.1)] :: fs) with
+  | none =>
+    rw [ha] at hsim
+    cases hb' : execL body ([(k, kv.1)] :: fs) with
+    | none => rfl
+    | some _ => rw [hb'] at hsim; exact hsim.elim
+  | some ra =>
+    rw [ha] at hsim
+    cases hb' : execL body ([(k, kv.1)] :: fs) with
+    | none => rw [hb'] at hsim; exact hsim.elim
+    | some rb =>
+      rw [hb'] at hsim
+      obtain ⟨⟨g, f1, fs', e1, e2, _⟩, hc⟩ := hsim
+      obtain ⟨ra1, ra2⟩ := ra
+      obtain ⟨rb1, rb2⟩ := rb
+      simp only at e1 e2 hc
+      subst e1 e2 hc
+      rfl
+
+theorem lowerConsumer_define_correct (k : Name) (body : BStmts) (hb : noTopDefL [k] body = true)
+    (elems : List (Int × Int)) (fs : Frames) :
+    lowLoop (lowerConsumer ⟨.define, some k, none, body⟩) elems fs = specLoop ⟨.define, some k, none, body⟩ elems fs :=
+  loopOver_congr (lowIter_consumer_define k body hb) elems fs
+
+/-- the guard is exactly what D11b violates -/
+example : noTopDefL [1] cexD11b.body = false := by decide
+
+end GoCo.RL
